@@ -25,7 +25,7 @@ ASSUMPTIONS = [
     'for every probed path except the ancestors of the cart directory '
     '(necessarily directories); open() records the path',
     'path strings are drawn from the alphabet { . / r x a } (include) and '
-    '{ . / x a ? ; } (require) up to the stated length',
+    '{ . / x a ? ; ~ } (require) up to the stated length',
 ]
 OUTSIDE = ['Windows path semantics', 'path strings longer than the bound or '
            'over other alphabets', 'symbolic links']
@@ -114,7 +114,7 @@ def include(x, p):
 
 def require(x, p):
     n = p['n']
-    s = sym_path(x, 'req', n, './xa?;')
+    s = sym_path(x, 'req', n, './xa?;~')
     lua_path = p['lua_path']
     rec = []
     src = b'require("' + s + b'")\n'
